@@ -361,38 +361,45 @@ def toValue (K : KindLists) (r : Boxed) (out : Ty) : Res RV :=
       else if v.ty.size ≠ out.size then .error .errSize    -- :69-70
       else .ok v                                           -- :72
 
+/-- `reflect.Type.Elem()` (arg/value.go:36): element type of slice/array/pointer/chan/map, a panic otherwise -/
+def Ty.elem? (t : Ty) : Res Ty :=
+  match t.under with
+  | .slice e => .ok e
+  | .arr _ e => .ok e
+  | .ptr e => .ok e
+  | .chan _ e => .ok e
+  | .map _ e => .ok e
+  | _ => .error .panicElem
+
+/-- arg/value.go:30-38 — the type the i-th supplied value is converted at: `types[i]` before the last position,
+    from then on the last type (its `Elem()` for a variadic function).  `none`: `types[len-1]` on an empty list
+    (index out of range; cannot happen: non-variadic arity forces objs = [] then, and a variadic function has a parameter). -/
+def I2V.typeAt (types : List Ty) (isVariadic : Bool) (i : Nat) : Option (Res Ty) :=
+  if i + 1 < types.length then (types[i]?).map .ok
+  else (types.getLast?).map (fun t => if isVariadic then t.elem? else .ok t)
+
+/-- arg/value.go:39 — conversion of the i-th supplied value -/
+def I2V.convAt (K : KindLists) (types : List Ty) (isVariadic : Bool) (i : Nat) (a : Boxed) : Res RV :=
+  match I2V.typeAt types isVariadic i with
+  | none => .error .errArity
+  | some (.error e) => .error e
+  | some (.ok typ) => toValue K a typ
+
+/-- arg/value.go:29-43 — the loop: stop at the first failing position -/
+def I2V.go (K : KindLists) (types : List Ty) (isVariadic : Bool) (i : Nat) : List Boxed → Res (List RV)
+  | [] => .ok []
+  | a :: rest =>
+    match I2V.convAt K types isVariadic i a with
+    | .error e => .error e
+    | .ok v => match I2V.go K types isVariadic (i + 1) rest with
+      | .error e => .error e
+      | .ok vs => .ok (v :: vs)
+
 /-- `arg/value.go:15 I2V` -/
 def I2V (K : KindLists) (objs : List Boxed) (types : List Ty) (isVariadic : Bool) : Res (List RV) :=
   if (isVariadic && decide (objs.length < types.length - 1)) || (!isVariadic && decide (objs.length ≠ types.length)) then
     .error .errArity                                       -- :16-24
-  else
-    let rec go (i : Nat) : List Boxed → Res (List RV)
-      | [] => .ok []
-      | a :: rest =>
-        -- :30-38  (types[len-1] on an empty list panics with index out of range; cannot happen: non-variadic
-        --  arity forces objs = [] then, and a variadic function has at least one parameter)
-        let typ? : Option (Res Ty) :=
-          if i + 1 < types.length then (types[i]?).map .ok
-          else (types.getLast?).map (fun t =>
-            if isVariadic then
-              match t.under with
-              | .slice e => .ok e
-              | .arr _ e => .ok e
-              | .ptr e => .ok e
-              | .chan _ e => .ok e
-              | .map _ e => .ok e
-              | _ => .error .panicElem
-            else .ok t)
-        match typ? with
-        | none => .error .errArity
-        | some (.error e) => .error e
-        | some (.ok typ) =>
-          match toValue K a typ with
-          | .error e => .error e
-          | .ok v => match go (i + 1) rest with
-            | .error e => .error e
-            | .ok vs => .ok (v :: vs)
-    go 0 objs
+  else I2V.go K types isVariadic 0 objs
 
 /-- `isZero` applied to a `reflect.Value`: defined when the flag kind agrees with the payload; after a
     cross-kind `cast` (e.g. a `uintptr` standing in for a pointer) reflect's accessors are applied to a
